@@ -5,6 +5,12 @@ import json, os, re, shutil, subprocess, sys, time, hashlib, random, glob
 VERIF = os.path.dirname(os.path.dirname(os.path.abspath(__file__)))
 SPEC = os.path.join(VERIF, "spec")
 BUILD = os.path.join(VERIF, ".build")
+# development aid (seeded-change runs in scratch worktrees, in parallel with work on /repo): VERIF_REPO names another
+# tree to build against; evidence and replay files of such runs go to VERIF_OUT, never to /verif.  Registered
+# commands do not set it: they always rebuild from /repo.
+REPO = os.environ.get("VERIF_REPO", "/repo")
+ALT = REPO != "/repo"
+OUT = os.environ.get("VERIF_OUT", "/tmp/verif-out-" + hashlib.sha1(REPO.encode()).hexdigest()[:8]) if ALT else VERIF
 GOENV = dict(GOFLAGS="-mod=mod", GOPROXY="off", GOSUMDB="off", GOTOOLCHAIN="local")
 NPROC = os.cpu_count() or 4
 
@@ -17,7 +23,7 @@ class Ctx:
     def __init__(self, prop, tier, seed):
         self.prop, self.tier, self.seed = prop, tier, seed
         self.t0 = time.time()
-        root = os.environ.get("VERIF_SCRATCH", os.path.join(VERIF, ".scratch"))
+        root = os.environ.get("VERIF_SCRATCH", os.path.join(VERIF, ".scratch") if "VERIF_REPO" not in os.environ else "/tmp/verif-scratch")
         self.scratch = os.path.join(root, "%s.%d" % (prop, os.getpid()))
         shutil.rmtree(self.scratch, ignore_errors=True)
         os.makedirs(self.scratch)
@@ -184,17 +190,26 @@ def generate(ctx, module, cfg, n, depth, seed, timeout=300, bfs=False, env=None,
 
 def build_harness(ctx, race=False):
     """rebuilds the harness against /repo's current working tree with -tags verif"""
-    os.makedirs(BUILD, exist_ok=True)
     hdir = os.path.join(VERIF, "harness")
-    shutil.copy("/repo/teamserver/go.sum", os.path.join(hdir, "go.sum"))
-    out = os.path.join(BUILD, "vharness-race" if race else "vharness")
-    cmd = ["go", "build", "-tags", "verif"] + (["-race"] if race else []) + ["-o", out, "./cmd/vharness"]
+    bdir = BUILD if not ALT else os.path.join(BUILD, "alt-" + hashlib.sha1(REPO.encode()).hexdigest()[:8])
+    os.makedirs(bdir, exist_ok=True)
+    modflag = []
+    if ALT:
+        mod = open(os.path.join(hdir, "go.mod")).read().replace("=> /repo/teamserver", "=> %s/teamserver" % REPO)
+        with open(os.path.join(bdir, "go.alt.mod"), "w") as f:
+            f.write(mod)
+        shutil.copy(os.path.join(REPO, "teamserver/go.sum"), os.path.join(bdir, "go.alt.sum"))
+        modflag = ["-modfile", os.path.join(bdir, "go.alt.mod")]
+    else:
+        shutil.copy("/repo/teamserver/go.sum", os.path.join(hdir, "go.sum"))
+    out = os.path.join(bdir, "vharness-race" if race else "vharness")
+    cmd = ["go", "build", "-tags", "verif"] + modflag + (["-race"] if race else []) + ["-o", out, "./cmd/vharness"]
     e = dict(os.environ); e.update(GOENV)
     t = time.time()
     p = subprocess.run(cmd, cwd=hdir, env=e, stdout=subprocess.PIPE, stderr=subprocess.STDOUT, text=True)
     if p.returncode != 0:
-        raise Infra("harness build failed (is /repo compiling?):\n" + p.stdout[-3000:])
-    ctx.say("  harness built in %.1fs" % (time.time() - t))
+        raise Infra("harness build failed (is %s compiling?):\n" % REPO + p.stdout[-3000:])
+    ctx.say("  harness built in %.1fs%s" % (time.time() - t, " (against %s)" % REPO if ALT else ""))
     return out
 
 
@@ -384,7 +399,7 @@ def report(ctx, sig, replay_obj):
             ctx.known_seen.append(k)
             print("KNOWN-FINDING: property=%s %s" % (ctx.prop, k["what"]), flush=True)
         return
-    rd = os.path.join(VERIF, "replays")
+    rd = os.path.join(OUT, "replays")
     os.makedirs(rd, exist_ok=True)
     h = hashlib.sha1(json.dumps(sig, sort_keys=True).encode()).hexdigest()[:10]
     path = os.path.join(rd, "%s-%s.json" % (ctx.prop, h))
@@ -414,8 +429,8 @@ def write_evidence(ctx, level, rule, samples, evaluations, distinct_nontrivial, 
         cov.update(extra)
     ev = {"property_id": ctx.prop, "tier": ctx.tier, "seed": ctx.seed, "level": level, "coverage": cov,
           "assumptions": assumptions or [], "wall_s": round(time.time() - ctx.t0, 1), "violations": len(ctx.violations)}
-    os.makedirs(os.path.join(VERIF, "evidence"), exist_ok=True)
-    with open(os.path.join(VERIF, "evidence", ctx.prop + ".json"), "w") as f:
+    os.makedirs(os.path.join(OUT, "evidence"), exist_ok=True)
+    with open(os.path.join(OUT, "evidence", ctx.prop + ".json"), "w") as f:
         json.dump(ev, f, indent=1)
 
 
